@@ -167,10 +167,15 @@ class Check(FormulaCheck):
             self.e.bind(t_gt=target)
             for i, c in enumerate(cases):
                 self.e.bind(**{'k_' + L[i]: c})
+            if rnd.random() < 0.5:
+                # results drawn from the same values as the cases: a result that equals the target is not a case
+                res = [rnd.choice(pool) for _ in range(n)]
+                for i, r in enumerate(res):
+                    self.e.bind(**{'r_' + L[i]: r})
             f = 'SWITCH(t_gt,%s%s)' % (','.join('k_%s,r_%s' % (x, x) for x in L[:n]), ',"dflt"' if hasdef else '')
             exp = next((r for c, r in zip(cases, res) if c == target), 'dflt' if hasdef else 'ERR:#N/A')
             g = self.ev(f)
-            self.expect('C12/SWITCH', g == exp, formula=f, target=target, cases=cases, results=res, default=hasdef, got=g, expected=exp)
+            self.expect('C12/SWITCH', g == exp and (self.is_err(exp) or type(g) is type(exp)), formula=f, target=target, cases=cases, results=res, default=hasdef, got=g, expected=exp)
             rec.nt(('SWITCH', target, tuple(cases), tuple(res), hasdef))
             x = rnd.choice(VALS)
             a, b = rnd.choice([1, 'x', None, True, 2.5]), rnd.choice([2, 'y', False, 0])
